@@ -105,6 +105,7 @@ COMPONENTS = {
 
 # ------------------------------------------------------------------- workers
 _TMP = {}
+_HISTORY = []       # (kind, profile, seed, tier) of every case this process has executed, in order
 
 
 def _tmpdir():
@@ -137,9 +138,12 @@ def work(args):
                status=collections.Counter(), nontriv=[], digests=set(), states=set(), viols=[], other=collections.Counter(),
                samples=[], harness=[], kind=kind, profile=profile)
     nt = PROPS[pid]['nontrivial']
+    hist_sent = set()
     for i in range(start, start + count):
         seed = '%s/%s/%s/%d' % (seedbase, kind, profile, i)
         faulthandler.dump_traceback_later(per_case_timeout, exit=True)
+        hist_before = len(_HISTORY)
+        _HISTORY.append([kind, profile, seed, tier])
         try:
             case = cases.gen_case(kind, profile, seed, tier)
             out = cases.exec_case(case, d)
@@ -168,7 +172,13 @@ def work(args):
                                            faults_fired=out['faults'], probes=out['probes']))
         for v in out['violations']:
             if v['prop'] == pid:
-                agg['viols'].append(dict(seed=seed, v=v, case=case, digest=out['digest']))
+                x = dict(seed=seed, v=v, case=case, digest=out['digest'])
+                if sig_of(v) not in hist_sent and hist_before:
+                    # what this interpreter had executed before: needed if the failure depends on state that
+                    # leaked from an earlier simulation (DESIGN 13: chain replay)
+                    hist_sent.add(sig_of(v))
+                    x['hist'] = [list(h) for h in _HISTORY[:hist_before]]
+                agg['viols'].append(x)
             else:
                 agg['other'][v['prop']] += 1
     return agg
@@ -260,6 +270,49 @@ def replay(path, quiet=False):
     sig = tuple(rp['signature'])
     hit = [v for v in out['violations'] if sig_of(v) == sig]
     return bool(hit), out, rp, hit
+
+
+def _chain_replay(pid, sig, xs, seed, replay_fn, budget_s=600):
+    """A failure that does not reproduce in a fresh interpreter may depend on state left behind by the
+    simulations the worker ran before it (module-level caches, class attributes, mutable defaults).  Re-run the
+    worker's history followed by the case in a fresh interpreter; if that reproduces, minimise the history
+    (shortest suffix, then single entries) and return the replay path, else None."""
+    t0 = time.time()
+    cand = [x for x in xs if x.get('hist')]
+    if not cand:
+        return None
+    cand.sort(key=lambda x: len(x['hist']))
+    x = cand[0]
+    hist = x['hist']
+
+    def attempt(h):
+        case = {'kind': 'chain', 'hist': h, 'case': x['case']}
+        path = write_replay(pid, sig, case, x['v']['msg'] + ' [after %d earlier simulations in the same interpreter]' % len(h),
+                            seed, x['seed'], 0)
+        r = replay_fn(path)
+        return path if (r.returncode == 1 and 'VIOLATION' in r.stdout) else None
+    best = attempt(hist)
+    if not best:
+        return None
+    best_h = hist
+    # shortest suffix
+    k = 1
+    while k < len(best_h) and time.time() - t0 < budget_s:
+        p = attempt(best_h[-k:])
+        if p:
+            best, best_h = p, best_h[-k:]
+            break
+        k *= 2
+    # drop single entries (earliest first)
+    i = 0
+    while i < len(best_h) and len(best_h) > 1 and time.time() - t0 < budget_s:
+        h = best_h[:i] + best_h[i + 1:]
+        p = attempt(h)
+        if p:
+            best, best_h = p, h
+        else:
+            i += 1
+    return best
 
 
 # ----------------------------------------------------------------------- run
@@ -388,6 +441,8 @@ def _run_property(pid, tier, seed, budget_s, workers, scale, out):
     confirmed = []
     unconfirmed = []
     slow = []
+    chained = 0
+    xs_by_sig = {sig: xs for sig, xs in new}
     def _replay(path):
         try:
             return subprocess.run([sys.executable, os.path.join(VERIF, 'check'), pid, '--replay', path],
@@ -404,6 +459,12 @@ def _run_property(pid, tier, seed, budget_s, workers, scale, out):
             r2 = _replay(path2)
             if r2.returncode == 1 and 'VIOLATION' in r2.stdout:
                 confirmed.append((sig, path2, n, x))
+                continue
+            # not reproducible from a fresh interpreter: does it depend on what the interpreter ran before?
+            chain_path = _chain_replay(pid, sig, xs_by_sig.get(sig) or [x], seed, _replay)
+            if chain_path:
+                confirmed.append((sig, chain_path, n, x))
+                chained += 1
             elif sig[1] == 'hang':
                 # a wall-clock verdict that does not reproduce in a quiet process was a slow run on a loaded
                 # machine, not a hang: neither a violation nor a harness error
@@ -428,6 +489,7 @@ def _run_property(pid, tier, seed, budget_s, workers, scale, out):
             'components': COMPONENTS, 'known_findings_hit': dict(known_hit), 'masked_by_known_finding': masked,
             'violations_of_other_properties_seen': dict(agg['other']),
             'workers': workers, 'exhaustive': False, 'slow_runs_not_hangs': len(slow),
+            'violations_needing_interpreter_history': chained,
             'replays': [p for _, p, _, _ in confirmed],
         },
         'assumptions': [
